@@ -96,6 +96,10 @@ var dicts = []dictT{
 	{"A=1B2", map[string]string{"A": "1B2"}},
 	{"A1=B2", map[string]string{"A1": "B2"}},
 	{"A=2,B=1", map[string]string{"A": "2", "B": "1"}},
+	// values spelled like a parameter name (their own, or another's)
+	{"A-value-is-own-name", map[string]string{"A": "A"}},
+	{"A-value-is-own-name-among-others", map[string]string{"A": "A", "B": "vb", "AB": "AB"}},
+	{"values-are-each-others-names", map[string]string{"A": "B", "B": "A"}},
 	{"values-with-separator-bytes", map[string]string{"A": "v\x00w", "B": "line1\nline2\tend"}},
 }
 
@@ -150,7 +154,8 @@ type Case struct {
 	Dict     string `json:"dict"`
 	Choices  []int  `json:"choices,omitempty"`
 	Before   string `json:"before,omitempty"` // dictionary of an earlier call in the same process
-	Shape    string `json:"shape,omitempty"`  // layout shape ("" = two steps and two inspections)
+	SameVal  bool   `json:"before_on_same_layout_value,omitempty"`
+	Shape    string `json:"shape,omitempty"` // layout shape ("" = two steps and two inspections)
 }
 
 func fullAt(label string) bool { return strings.HasPrefix(label, "SubstituteParameters#") }
@@ -163,12 +168,18 @@ func once(pos, text string, d dictT, ch *mcx.Chooser) (obs, sig string) {
 // onceAfter: like once, but an unrelated call with dictionary before (on another copy of the same
 // layout) has been made earlier in the process; the result must not depend on it.
 func onceAfter(before *dictT, pos, text string, d dictT, ch *mcx.Chooser) (obs, sig string) {
+	return onceAfterOn(before, false, pos, text, d, ch)
+}
+
+// onceAfterOn: sameValue = the earlier call was made on the very layout value the judged call gets (a caller
+// that substitutes one loaded layout with several dictionaries); its result depends on that dictionary alone.
+func onceAfterOn(before *dictT, sameValue bool, pos, text string, d dictT, ch *mcx.Chooser) (obs, sig string) {
 	defer func() {
 		if sig != "" && shape != "" {
 			sig += "|layout-with-" + shape
 		}
 	}()
-	if before != nil {
+	if before != nil && !sameValue {
 		prior := baseLayout()
 		for _, l := range gen.StringLeaves(&prior) {
 			if l.Path == pos {
@@ -220,6 +231,19 @@ func onceAfter(before *dictT, pos, text string, d dictT, ch *mcx.Chooser) (obs, 
 		for k, v := range d.D {
 			dd[k] = v
 		}
+	}
+	if before != nil && sameValue {
+		bd := map[string]string{}
+		for k, v := range before.D {
+			bd[k] = v
+		}
+		intoto.SubstituteParameters(in, bd)
+		defer func() {
+			if sig != "" {
+				sig += "|after-a-call-on-the-same-layout-value"
+				obs += " (after a call on the same layout value with dictionary " + before.Name + ")"
+			}
+		}()
 	}
 	got, err := intoto.SubstituteParameters(in, dd)
 	kind := "other-field"
@@ -361,18 +385,24 @@ func histories(c *mcx.Ctx, positions []string, n *int64) {
 					if !c.Mine(*n) {
 						continue
 					}
-					obs, sig := onceAfter(&dicts[i], pos, text, d, nil)
-					c.Impl(2)
-					c.Step(1, 2)
-					c.Case(strings.Contains(text, "{") && len(d.D) > 0)
-					c.Outcome("history:" + map[bool]string{true: "ok", false: "violation"}[sig == ""])
-					if sig != "" {
-						c.Violation(sig, fmt.Sprintf("SubstituteParameters with text %q at %s and dictionary %s %v, after a call with dictionary %s %v", text, pos, d.Name, d.D, dicts[i].Name, dicts[i].D),
-							Case{Position: pos, Text: text, Dict: d.Name, Before: dicts[i].Name, Shape: shape}, obs)
+					for _, same := range []bool{false, true} {
+						histOne(c, same, &dicts[i], pos, text, d)
 					}
 				}
 			}
 		}
+	}
+}
+
+func histOne(c *mcx.Ctx, same bool, before *dictT, pos, text string, d dictT) {
+	obs, sig := onceAfterOn(before, same, pos, text, d, nil)
+	c.Impl(2)
+	c.Step(1, 2)
+	c.Case(strings.Contains(text, "{") && len(d.D) > 0)
+	c.Outcome("history:" + map[bool]string{true: "ok", false: "violation"}[sig == ""] + map[bool]string{true: "|same-layout-value"}[same])
+	if sig != "" {
+		c.Violation(sig, fmt.Sprintf("SubstituteParameters with text %q at %s and dictionary %s %v, after a call with dictionary %s %v (same layout value: %v)", text, pos, d.Name, d.D, before.Name, before.D, same),
+			Case{Position: pos, Text: text, Dict: d.Name, Before: before.Name, SameVal: same, Shape: shape}, obs)
 	}
 }
 
@@ -393,7 +423,7 @@ func replay(c *mcx.Ctx, raw json.RawMessage) (string, string) {
 	for _, d := range dicts {
 		if d.Name == cs.Dict {
 			if before != nil {
-				return onceAfter(before, cs.Position, cs.Text, d, nil)
+				return onceAfterOn(before, cs.SameVal, cs.Position, cs.Text, d, nil)
 			}
 			return once(cs.Position, cs.Text, d, mcx.NewReplay(cs.Choices, fullAt))
 		}
